@@ -590,6 +590,7 @@ func exhaustive(c *Config) {
 func generate(c *Config) {
 	r := c.Rng
 	exhaustive(c)
+	scaleFamily(c)
 	for i := c.Count(4000, 120000); i > 0; i-- {
 		k, in := genDevsCase(r, i%3, false)
 		emit(c, k, in)
